@@ -206,6 +206,38 @@ func runC16(w *World, r *Report) {
 	} else {
 		r.Undecided("C16-R8", "waitChannel", 0, "anchor not found")
 	}
+	// R9: who may offer a channel to the waiting handlers
+	r.Rule("C16-R9", "who may offer a channel to waiting handlers", "the only sends on replicateChannelManager.forwardReplicateChannel are in forwardChannel (after the quota slot was reserved) and in forwardMsg (the channel a forwarded pack needs): a channel whose assignment is still in the mapping table is never offered a second time", 2)
+	{
+		nSend := 0
+		for _, fn := range w.RepoFuncs() {
+			if fn.Pkg == nil || fn.Pkg.Pkg.Path() != pkgReader {
+				continue
+			}
+			eachInstr(fn, func(in ssa.Instruction) {
+				var ch ssa.Value
+				switch x := in.(type) {
+				case *ssa.Send:
+					ch = x.Chan
+				case *ssa.Select:
+					for _, st := range x.States {
+						if st.Dir == types.SendOnly && strings.HasSuffix(w.accessPath(st.Chan), ".forwardReplicateChannel") {
+							ch = st.Chan
+						}
+					}
+				}
+				if ch == nil || !strings.HasSuffix(w.accessPath(ch), ".forwardReplicateChannel") {
+					return
+				}
+				nSend++
+				root := rootFunc(fn).Name()
+				r.Check(root == "forwardChannel" || root == "forwardMsg", "C16-R9", fmt.Sprintf("%s | send on forwardReplicateChannel #%d", shortFn2(fn), nSend), in.Pos(), "one of the two accounted senders", "a channel is offered to the waiting handlers outside forwardChannel / forwardMsg: the offered channel's assignment is still in the mapping table and no quota slot was reserved for it, so a waiting source channel lands on a downstream channel that is already in use (one-to-one / balance broken)")
+			})
+		}
+		if nSend == 0 {
+			r.Undecided("C16-R9", "forwardReplicateChannel", 0, "no send found")
+		}
+	}
 	r.Rule("C16-R4", "assignments are append-only", "ChannelMapping's maps are written only in AddKeyValue/NewChannelMapping; no delete() or reassignment of channelHandlerMap / sourcePChannelKeyMap / ChannelMapping maps anywhere", 4)
 
 	mgr := w.Named(pkgReader, "replicateChannelManager")
